@@ -492,14 +492,21 @@ var _ utils.PriorityQueue
 //@ assume
 //@ modifies nothing
 
+// the header (index parameters): every field goes through binary.Read / binary.Write (complete reads), and the narrowing
+// conversions of save are lossless for parameters that fit 31 bits
+//@ spec cfgFits(c *hnswConfig) bool = c.searchAlgorithm >= 0 && c.searchAlgorithm <= 4294967295 && 0 - 2147483648 <= c.ef && c.ef < 2147483648 && 0 - 2147483648 <= c.efConstruction && c.efConstruction < 2147483648 && 0 - 2147483648 <= c.m && c.m < 2147483648 && 0 - 2147483648 <= c.mMax && c.mMax < 2147483648 && 0 - 2147483648 <= c.mMax0 && c.mMax0 < 2147483648
 //@ func (*index.hnswConfig).load
 //@ props C08
-//@ assume
+//@ at call Reader.Read
+//@ requires [C08 full-read] false
+//@ end
+//@ requires [reader] this != nil && !isnil(r)
 //@ modifies fields(this)
 
 //@ func (*index.hnswConfig).save
 //@ props C08
-//@ assume
+//@ trust check lossless
+//@ requires [fits] this != nil && cfgFits(this)
 //@ modifies nothing
 
 //@ func index.spaceIdxToSpace
@@ -508,6 +515,8 @@ var _ utils.PriorityQueue
 //@ ensures [space] isnil(ret1) ==> !isnil(ret0)
 //@ modifies nothing
 
+// (stays assumed: &v[i] handed to binary.Read as an interface value is an interior pointer the generator does not model;
+// the body is one binary.Read per component)
 //@ func (math.Vector).Load
 //@ props C08
 //@ assume
@@ -515,7 +524,6 @@ var _ utils.PriorityQueue
 
 //@ func (math.Vector).Save
 //@ props C08
-//@ assume
 //@ modifies nothing
 
 // metadata records: key length in one byte, value length in two bytes, entry count in two bytes
@@ -568,6 +576,7 @@ var _ utils.PriorityQueue
 //@ trust check lossless
 //@ requires [graph] wfGraph(this) && !isnil(w)
 //@ requires [shards] wfShards(this) && wfStored(this) && this.config != nil
+//@ requires [header-fits] header ==> cfgFits(this.config)
 //@ requires [sizes] this.size <= 4294967295 && forall s int :: 0 <= s && s < 16 ==> len(this.vertices[s]) <= 4294967295
 //@ requires [items-fit] forall s int, id uuid.UUID :: 0 <= s && s < 16 && has(this.vertices[s], id) ==> vertexFits(this.vertices[s][id])
 //@ requires [links-fit] forall m hnswEdgeSet :: len(m) <= 4294967295
